@@ -402,6 +402,126 @@ fn opt_depth(v: &RValue) -> u64 {
     }
 }
 
+/// One deserializer, several arguments, each read its own way (native at its own type, untyped at its own type,
+/// `get_value::<IDLValue>()`): what one argument costs must not depend on how the arguments before it were read.
+/// Oracle: the skipping cost of the whole sequence is the sum of the skipping costs of the same reads done on
+/// single-argument messages (the header is not charged to the skipping quota), the values are the same, and the
+/// decoding cost differs from that sum only by the header term.
+fn mixed_sequence(ctx: &mut Ctx, rng: &mut Rng, n_types: usize) {
+    let nargs = 2 + rng.usize(2);
+    let mut r2 = Rng::new(rng.next());
+    let mut whole = candid::ser::IDLBuilder::new();
+    let mut singles: Vec<Vec<u8>> = Vec::new();
+    let mut tys: Vec<usize> = Vec::new();
+    for _ in 0..nargs {
+        let i = rng.usize(n_types);
+        // a reference value is charged by the size of the message's type table, which differs between the whole message
+        // and the single-argument ones: no exact additivity there
+        let nm = reg::with(i, |t| t.name());
+        if nm.contains("MyFunc") || nm.contains("MyServ") {
+            ctx.count("excluded:mixed-sequence-with-reference-types");
+            return;
+        }
+        let seed = r2.next();
+        let mut one = candid::ser::IDLBuilder::new();
+        if reg::with(i, |t| t.arg_into(&mut whole, &mut Rng::new(seed), 12)).is_err() || reg::with(i, |t| t.arg_into(&mut one, &mut Rng::new(seed), 12)).is_err() {
+            return;
+        }
+        let Ok(b) = one.serialize_to_vec() else { return };
+        singles.push(b);
+        tys.push(i);
+    }
+    let Ok(bytes) = whole.serialize_to_vec() else { return };
+    // how each argument is read: 0 native, 1 untyped without a type (IDLValue), 2 untyped at the type's Candid type
+    let modes: Vec<u64> = (0..nargs).map(|_| rng.below(3)).collect();
+    if modes.iter().all(|m| *m == modes[0]) {
+        return;
+    }
+    let c = cfg(Some(HUGE), Some(HUGE));
+    let read = |de: &mut IDLDeserialize, i: usize, mode: u64| -> Result<Result<RValue, String>, crate::ctx::PanicInfo> {
+        match mode {
+            0 => reg::with(i, |t| t.get_from(de)),
+            1 => catch(|| de.get_value::<candid::IDLValue>().map(|v| model_value(&v)).map_err(|e| format!("{e:?}"))),
+            _ => {
+                let (env, t) = reg::with(i, |t| t.rtype());
+                let (cenv, cts) = candid_side(&env, std::slice::from_ref(&t), None);
+                catch(|| de.get_value_with_type(&cenv, &cts[0]).map(|v| model_value(&v)).map_err(|e| format!("{e:?}")))
+            }
+        }
+    };
+    let names: Vec<String> = tys.iter().zip(&modes).map(|(i, m)| format!("{}@{}", reg::with(*i, |t| t.name()), ["native", "IDLValue", "untyped-at-type"][*m as usize])).collect();
+    let input = || json!({"reads": names, "bytes": hex(&bytes)});
+    // the whole message on one deserializer
+    let Ok(mut de) = IDLDeserialize::new_with_config(&bytes, &c) else { return };
+    let mut vals = Vec::new();
+    for (i, m) in tys.iter().zip(&modes) {
+        match read(&mut de, *i, *m) {
+            Ok(Ok(v)) => vals.push(v),
+            Ok(Err(e)) if e.contains("inconsistent binding") => {
+                // two reads at a type bring environments that use the same definition names for different types: the
+                // caller's (this harness's) mistake, reported as an error as it should be
+                ctx.count("excluded:mixed-sequence-environments-clash");
+                return;
+            }
+            Ok(Err(e)) => {
+                ctx.violation(&format!("mixed-sequence|read-fails|{}", err_class_str(&e)), &e, input());
+                return;
+            }
+            Err(p) => {
+                ctx.violation(&format!("panic|mixed-sequence|{}", p.sig()), &p.message, input());
+                return;
+            }
+        }
+    }
+    if de.done().is_err() {
+        return;
+    }
+    let cost = de.get_config().compute_cost(&c);
+    // the same reads, one message per argument
+    let (mut sum_cs, mut sum_cd) = (0usize, 0usize);
+    for (k, (i, m)) in tys.iter().zip(&modes).enumerate() {
+        let Ok(mut d1) = IDLDeserialize::new_with_config(&singles[k], &c) else { return };
+        match read(&mut d1, *i, *m) {
+            Ok(Ok(v)) => {
+                let hashy = names[k].contains("Hash");
+                let (a, b) = if hashy { (sort_vecs(&v), sort_vecs(&vals[k])) } else { (v, vals[k].clone()) };
+                if a != b {
+                    ctx.violation("mixed-sequence|value-depends-on-earlier-reads", &format!("argument {k}: alone {a} vs in sequence {b}"), input());
+                    return;
+                }
+            }
+            _ => return,
+        }
+        if d1.done().is_err() {
+            return;
+        }
+        let c1 = d1.get_config().compute_cost(&c);
+        sum_cs += c1.skipping_quota.unwrap_or(0);
+        sum_cd += c1.decoding_quota.unwrap_or(0);
+    }
+    let (cd, cs) = (cost.decoding_quota.unwrap_or(0), cost.skipping_quota.unwrap_or(0));
+    if cs != sum_cs {
+        ctx.violation(
+            "mixed-sequence|skipping-cost-depends-on-earlier-reads",
+            &format!("skipping cost of the sequence is {cs}; the same reads on single-argument messages cost {sum_cs} in total"),
+            input(),
+        );
+        return;
+    }
+    // decoding cost: equal up to the header term (4 per header byte; the single messages repeat magic and counts)
+    let slack = 4 * (bytes.len() + singles.iter().map(|b| b.len()).sum::<usize>()) + 64;
+    if cd > sum_cd + slack || sum_cd > cd + slack {
+        ctx.violation(
+            "mixed-sequence|decoding-cost-depends-on-earlier-reads",
+            &format!("decoding cost of the sequence is {cd}; the same reads on single-argument messages cost {sum_cd} in total (header allowance {slack})"),
+            input(),
+        );
+        return;
+    }
+    ctx.count("agree:mixed-sequence");
+    ctx.nontrivial(hash_str(&format!("{names:?}")));
+}
+
 pub fn run(ctx: &mut Ctx) {
     let n_types = reg::len();
     // native targets: a message of T (+ surplus arguments of other types)
@@ -464,7 +584,8 @@ pub fn run(ctx: &mut Ctx) {
         }
         ctx.nontrivial(hash_str(&format!("{}|{}", tgt.describe(), shape(&wenv, &wt, 4))));
     });
-    ctx.cases("untyped", 0.45, |ctx, rng| {
+    ctx.cases("mixed-sequence-on-one-deserializer", 0.1, |ctx, rng| mixed_sequence(ctx, rng, n_types));
+    ctx.cases("untyped", 0.35, |ctx, rng| {
         let Some(wc) = gen_wire_case(rng, &tcfg, 3, 40, true) else { return };
         let (eenv, ets, kind) = gen_expected(rng, &tcfg, &wc);
         let (cenv, cts) = candid_side(&eenv, &ets, None);
